@@ -282,6 +282,9 @@ func main() {
 			calls := map[string][]string{}
 			goStmts := []string{}
 			globalWrites := []string{}
+			fieldAccess := map[string][]string{} // selector name -> functions in which it is read or written
+			aliasAssign := []string{}            // func:field where a struct field is assigned directly from a slice-typed parameter
+			lockedFuncs := []string{}            // functions whose body starts with x.m.Lock(); defer x.m.Unlock()
 			var stack []ast.Node
 			for _, f := range files {
 				ast.Inspect(f, func(n ast.Node) bool {
@@ -291,6 +294,27 @@ func main() {
 					}
 					stack = append(stack, n)
 					switch d := n.(type) {
+					case *ast.SelectorExpr:
+						if d.Sel.Name == "polynomes" || d.Sel.Name == "content" || d.Sel.Name == "color" {
+							fn := enclosingFuncName(stack)
+							fieldAccess[d.Sel.Name] = append(fieldAccess[d.Sel.Name], fn)
+						}
+					case *ast.FuncDecl:
+						if d.Body != nil && len(d.Body.List) >= 2 {
+							isCall := func(e ast.Expr, name string) bool {
+								c, ok := e.(*ast.CallExpr)
+								if !ok {
+									return false
+								}
+								sel, ok := c.Fun.(*ast.SelectorExpr)
+								return ok && sel.Sel.Name == name
+							}
+							if es, ok := d.Body.List[0].(*ast.ExprStmt); ok && isCall(es.X, "Lock") {
+								if ds, ok := d.Body.List[1].(*ast.DeferStmt); ok && isCall(ds.Call, "Unlock") {
+									lockedFuncs = append(lockedFuncs, enclosingFuncName(append(stack, d)))
+								}
+							}
+						}
 					case *ast.GoStmt:
 						goStmts = append(goStmts, enclosingFuncName(stack))
 					case *ast.ValueSpec:
@@ -350,6 +374,30 @@ func main() {
 										if txt, err := e.val(cl, t); err == nil {
 											nm := "l_" + fn + "_" + id.Name
 											items = append(items, item{nm, fmt.Sprintf("def %s : %s :=\n  %s", nm, ty, txt)})
+										}
+									}
+								}
+							}
+						}
+						// struct field := slice-typed parameter (aliasing the caller's buffer)
+						for i, l := range d.Lhs {
+							if sel, ok := l.(*ast.SelectorExpr); ok && i < len(d.Rhs) {
+								if id, ok := d.Rhs[i].(*ast.Ident); ok {
+									if obj, ok := info.Uses[id].(*types.Var); ok {
+										if _, isSlice := obj.Type().Underlying().(*types.Slice); isSlice {
+											// is it a parameter of the enclosing function?
+											for k := len(stack) - 1; k >= 0; k-- {
+												if fd, ok := stack[k].(*ast.FuncDecl); ok && fd.Type.Params != nil {
+													for _, fld := range fd.Type.Params.List {
+														for _, nm := range fld.Names {
+															if info.Defs[nm] == obj {
+																aliasAssign = append(aliasAssign, fn+":"+sel.Sel.Name)
+															}
+														}
+													}
+													break
+												}
+											}
 										}
 									}
 								}
@@ -452,6 +500,21 @@ func main() {
 			}
 			fmt.Fprintf(&b, "def fact_goStatements : List String := %s\n\n", q(goStmts))
 			fmt.Fprintf(&b, "def fact_globalWrites : List String := %s\n\n", q(globalWrites))
+			fmt.Fprintf(&b, "def fact_aliasAssign : List String := %s\n\n", q(aliasAssign))
+			fmt.Fprintf(&b, "def fact_lockedFuncs : List String := %s\n\n", q(lockedFuncs))
+			uniq := func(xs []string) []string {
+				seen := map[string]bool{}
+				var o []string
+				for _, x := range xs {
+					if !seen[x] {
+						seen[x] = true
+						o = append(o, x)
+					}
+				}
+				sort.Strings(o)
+				return o
+			}
+			fmt.Fprintf(&b, "def fact_polynomesAccess : List String := %s\n\n", q(uniq(fieldAccess["polynomes"])))
 			for _, s := range skipped {
 				fmt.Fprintf(&b, "-- skipped: %s\n", s)
 			}
